@@ -34,6 +34,8 @@ def run(ctx):
     _run_as(c12, _Only(ctx, "C09-a", ("token-recognised", "token-doc-regex", "token-spelling", "token-display")), ctx)
     # (b)
     _run_as(c13, _Only(ctx, "C09-b", ("literal-inner", "one-span|span", "same-shift|span", "same-end|span")), ctx)
+    from .c05 import rule_same_text
+    rule_same_text(ctx, facts, "C09-b")
     # (c)
     _run_as(c13, _Only(ctx, "C09-c", ("prefix-template", "prefix-key", "separators", "kind-new", "anchor-after-target", "paren-anchor-only-without-target",
                                       "G10|", "G14|", "inner-handles", "post-target-span", "target-flag", "shift-span", "shift-paren", "key-constant")), ctx)
